@@ -399,6 +399,9 @@ def _compress_tiles(
 
     data = xx.data
     assert is_dask_collection(data)
+    if not data.dtype.isnative:
+        # tile bytes go into the file as they are, the header is native byte order
+        data = data.astype(data.dtype.newbyteorder("="))
     data = _pad_to_cog_shape(data, meta)
 
     if meta.axis == "SYX":
